@@ -478,7 +478,8 @@ def _log_with(rt, target, ms):
         if tkey not in rt.mtypes:
             rt.mtypes[tkey] = eliot.MessageType(ms["mtype"], [rt.field(k, sid) for k, sid in ms["sers"]])
         mt = rt.mtypes[tkey]  # the same type object (and Field objects) every time the program logs through this type
-        rt.typed_calls.append(len(rt.writes))  # the next Logger.write is this typed message's
+        from eliot import _action as _a
+        rt.typed_calls.append((len(rt.writes), ctx_tag(_a.current_action())))  # the next Logger.write is this typed message's
         if target is None:
             if variant == 1:
                 return api(rt, "MessageType()().write", lambda: mt(**kw).write())
